@@ -6,10 +6,12 @@ P = dict(
         dict(module="MC_C07", quick_cfg="MC_C07_control.cfg", expect_violation=True, coverage=False, workers=8),
         # the whole thick-polyline renderer (EGThick), original and translated side by side, one row per step
         dict(module="MC_C02p", quick_cfg="MC_C02p.cfg", thorough_cfg="MC_C02p_thorough.cfg", workers=10, thorough_timeout=3000),
-        dict(module="MC_C02p", quick_cfg="MC_C07p_control.cfg", expect_violation=True, coverage=False, workers=6)],
+        dict(module="MC_C02p", quick_cfg="MC_C07p_control.cfg", expect_violation=True, coverage=False, workers=6),
+        dict(module="MC_C02t", quick_cfg="MC_C07t.cfg", thorough_cfg="MC_C02t.cfg", workers=10),
+        dict(module="MC_C02t", quick_cfg="MC_C07t_control.cfg", expect_violation=True, coverage=False, workers=6)],
     required_events=["pair"],
     level_text="MC_C07 model-checks translation equivariance of the transcribed line-join intersection pipeline for all line "
-               "pairs on a grid (control: the snapshot's half-away-from-zero rounding is refuted); MC_C02p runs the complete transcribed thick-polyline renderer (EGThick: extents, joins, segments, scanlines) for a polyline and its translate side by side and checks box and every row (control: the same rounding inside the renderer); for every drawable of the catalogue (styled primitives, polylines, images, sub-images, text) and offsets that "
+               "pairs on a grid (control: the snapshot's half-away-from-zero rounding is refuted); MC_C02p runs the complete transcribed thick-polyline renderer (EGThick: extents, joins, segments, scanlines) for a polyline and its translate side by side and checks box and every row (control: the same rounding inside the renderer), MC_C02t does the same for centre-aligned thick triangle strokes (EGThickTri; same control); for every drawable of the catalogue (styled primitives, polylines, images, sub-images, text) and offsets that "
                "cross the coordinate axes, TLC checks that the pixel map, bounding box, points(), contains() and the text's "
                "next position of the translated object are the shifted originals, that translate_mut equals translate and that "
                "polylines with moved vertices render like translated ones; thick triangles / polylines on a vertex grid",
